@@ -258,7 +258,7 @@ impl Type {
     }
 
     fn check_nesting_depth(t: &Type, struct_depth: u8, array_depth: u8) -> Result<()> {
-        if struct_depth >= 32 || array_depth >= 32 {
+        if struct_depth > 32 || array_depth > 32 {
             Err(Error::NestingTooDeep)
         } else {
             match t {
